@@ -54,17 +54,28 @@ where
         Ok(s)
     }
 
-    pub(crate) fn read_exact(&mut self, buffer: &mut [u8]) -> Result<()> {
-        self.input.read_exact(buffer).map_err(to_ase)
-    }
-
     pub(crate) fn skip_reserved(&mut self, count: usize) -> Result<()> {
         let mut ignored = vec![0_u8; count];
         self.input.read_exact(&mut ignored).map_err(to_ase)
     }
 
+    // Reads exactly `count` bytes. The buffer grows as data arrives, so a
+    // `count` that is merely declared in the file does not reserve memory.
+    pub(crate) fn read_vec(&mut self, count: usize) -> Result<Vec<u8>> {
+        let mut output = Vec::new();
+        (&mut self.input)
+            .take(count as u64)
+            .read_to_end(&mut output)?;
+        if output.len() != count {
+            return Err(std::io::Error::from(std::io::ErrorKind::UnexpectedEof).into());
+        }
+        Ok(output)
+    }
+
     pub(crate) fn take_bytes(self, limit: usize) -> Result<Vec<u8>> {
-        let mut output = Vec::with_capacity(limit);
+        // Do not reserve `limit` bytes up front: it is computed from sizes
+        // declared in the file and may be far larger than the actual data.
+        let mut output = Vec::new();
         self.input.take(limit as u64).read_to_end(&mut output)?;
         if output.len() != limit {
             Err(AsepriteParseError::InvalidInput(format!(
@@ -78,9 +89,13 @@ where
     }
 
     pub(crate) fn unzip(self, expected_output_size: usize) -> Result<Vec<u8>> {
-        let mut decoder = ZlibDecoder::new(self.input);
-        let mut buffer = Vec::with_capacity(expected_output_size);
-        decoder.read_to_end(&mut buffer)?;
+        let decoder = ZlibDecoder::new(self.input);
+        // Do not reserve `expected_output_size` bytes up front (it is declared
+        // in the file) and never inflate more than one byte beyond it.
+        let mut buffer = Vec::new();
+        decoder
+            .take(expected_output_size as u64 + 1)
+            .read_to_end(&mut buffer)?;
         if buffer.len() != expected_output_size {
             return Err(AsepriteParseError::InvalidInput(format!(
                 "Invalid decompressed data size. Expected: {}, Actual: {}",
